@@ -1015,11 +1015,15 @@ namespace BitSerializer::Convert::Utf
 			assert(mStartDataPtr <= mEndDataPtr);
 			if (mInputStream.eof())
 			{
-				// Handle uncompleted sequence at the end of file
-				if (result.ErrorCode == UtfEncodingErrorCode::UnexpectedEnd && Detail::HandleEncodingError(outStr, mEncodingErrorPolicy, mErrorMark))
+				// Handle uncompleted sequence at the end of file (including the tail which is shorter than one code unit)
+				if (result.ErrorCode == UtfEncodingErrorCode::UnexpectedEnd || (result.ErrorCode == UtfEncodingErrorCode::Success && mStartDataPtr != mEndDataPtr))
 				{
-					mStartDataPtr = mEndDataPtr = mEncodedBuffer;
-					return EncodedStreamReadResult::Success;
+					if (Detail::HandleEncodingError(outStr, mEncodingErrorPolicy, mErrorMark))
+					{
+						mStartDataPtr = mEndDataPtr = mEncodedBuffer;
+						return EncodedStreamReadResult::Success;
+					}
+					return EncodedStreamReadResult::DecodeError;
 				}
 				return result.ErrorCode == UtfEncodingErrorCode::Success ? EncodedStreamReadResult::Success : EncodedStreamReadResult::DecodeError;
 			}
